@@ -545,15 +545,20 @@ func runConfig(cfg *runCfg) error {
 	}
 	for i := 0; i < cfg.N; i++ {
 		switch r := g.intn(100); {
-		case r < 40:
+		case r < 38:
 			add(d.roundCase(g))
-		case r < 55:
+		case r < 52:
 			add(d.msgInCase(g))
-		case r < 70:
+		case r < 65:
 			add(d.valClientCase(g))
+		case r < 77:
+			add(d.templateCase(g))
 		default:
 			add(d.literalCase(g))
 		}
+	}
+	for _, c := range d.tlsFlagCases() {
+		add(c)
 	}
 	// the other observations (formats, strict mode, flags, templates) are made on the Go side only
 	fstats := d.runFormats(g, cfg.N/4+8)
@@ -568,7 +573,8 @@ func runConfig(cfg *runCfg) error {
 			"Definition NDOMAINCASEONLY := Eval vm_compute in (count_if is_domain_belongs_case_only cases : Z).\nPrint NDOMAINCASEONLY.\n" +
 			"Definition NINVALID := Eval vm_compute in (count_if is_invalid cases : Z).\nPrint NINVALID.\n" +
 			"Definition NUNKNOWNTYPE := Eval vm_compute in (count_if is_unknown_type cases : Z).\nPrint NUNKNOWNTYPE.\n" +
-			"Definition NNORETURN := Eval vm_compute in (count_if is_no_return cases : Z).\nPrint NNORETURN.\n",
+			"Definition NNORETURN := Eval vm_compute in (count_if is_no_return cases : Z).\nPrint NNORETURN.\n" +
+			"Definition NTEMPLATEOK := Eval vm_compute in (count_if is_template_ok cases : Z).\nPrint NTEMPLATEOK.\n",
 	}
 	if err := cf.Write(cfg.Out); err != nil {
 		return err
